@@ -80,6 +80,12 @@ returns the value unchanged in that branch. -/
 def geomRandomise (eps : α) (sens : Nat) (value : Int) (u : α) : Int :=
   if 0 < sens then value + geomNoise (-eps / (sens : α)) u else value
 
+/-- `unif_rv = rng.random() - 0.5; while unif_rv == 0: unif_rv = rng.random() - 0.5`: the uniform actually used is the
+first one of the stream that is not exactly ½ (a measure-zero redraw; `none` = stream exhausted) -/
+def geomDraw : List α → Option α
+  | [] => none
+  | u :: us => if decide (u - 1 / 2 ≤ 0) && decide (0 ≤ u - 1 / 2) then geomDraw us else some u
+
 /-- closed-form law of the noise: `(1-r)/(1+r) * r^|k|`, `r = exp(scale)` -/
 def geomPmf (scale : α) (k : Int) : α :=
   (1 - Transc.exp scale) / (1 + Transc.exp scale) * Transc.exp (scale * (k.natAbs : α))
@@ -106,14 +112,32 @@ def truncInt (lo hi : Bnd) (v : Int) : Option Int :=
   else if lo.gtInt v then (match lo with | .half t => some (t / 2) | _ => none)
   else some v
 
-/-- `GeometricFolded._fold` (rounds to an integer, then the mixin's recursion, which calls the override again);
-`fuel` plays the part of Python's recursion limit, `none` = RecursionError / infinite reflection point -/
-def foldInt (lo hi : Bnd) : Nat → Int → Option Int
+/-- the `while value < lower or value > upper` loop of `_fold`, on doubled values (`v2 = 2·value`, so that
+half-integer bounds stay integral): `value = 2*lower - value if value < lower else 2*upper - value` -/
+def foldLoop (lo hi : Bnd) : Nat → Int → Option Int
   | 0, _ => none
-  | fuel + 1, v =>
-    if lo.gtInt v then (match lo with | .half t => foldInt lo hi fuel (t - v) | _ => none)
-    else if hi.ltInt v then (match hi with | .half t => foldInt lo hi fuel (t - v) | _ => none)
-    else some v
+  | fuel + 1, v2 =>
+    let below := match lo with | .negInf => false | .posInf => true | .half t => decide (v2 < t)
+    let above := match hi with | .negInf => true | .posInf => false | .half t => decide (t < v2)
+    if below then (match lo with | .half t => foldLoop lo hi fuel (2 * t - v2) | _ => none)
+    else if above then (match hi with | .half t => foldLoop lo hi fuel (2 * t - v2) | _ => none)
+    else some (v2 / 2)
+
+/-- `GeometricFolded._fold` = the mixin's `_fold` on `int(round(value))`, followed by `int(np.round(.))`:
+a single-point domain returns its point; values more than two widths outside are first reduced modulo the period
+`2*width` (`value = lower + (value - lower) % (2*width)`); then the reflection loop.  With an infinite bound the width is
+infinite, the reduction never applies and the loop reflects at most once.  `fuel` bounds the loop (it runs at most
+three times); `none` = an infinite result (OverflowError in Python: C12's business). -/
+def foldInt (lo hi : Bnd) (fuel : Nat) (v : Int) : Option Int :=
+  match lo, hi with
+  | .half l2, .half h2 =>
+    if l2 = h2 then some (l2 / 2)
+    else
+      let w2 := h2 - l2
+      let v2 := 2 * v
+      let v2 := if decide (v2 < l2 - 2 * w2) || decide (h2 + 2 * w2 < v2) then l2 + (v2 - l2) % (2 * w2) else v2
+      foldLoop lo hi fuel v2
+  | _, _ => if lo = hi then none else foldLoop lo hi fuel (2 * v)
 
 def geomTruncRandomise (eps : α) (sens : Nat) (lo hi : Bnd) (value : Int) (u : α) : Option Int :=
   truncInt lo hi (geomRandomise eps sens value u)
